@@ -241,6 +241,28 @@ fn replay_with<S: Scenario>(sc: &S, rf: &ReplayFile, machine: bool) -> i32 {
 
 fn replay(args: &Args) -> i32 {
     let rf = read_replay(&PathBuf::from(&args.target));
+    {
+        // a replayed run is bounded in wall-clock time as well; for a "does_not_terminate" finding
+        // running into the bound is the reproduction
+        let expect_hang = rf.rule == "does_not_terminate";
+        let limit: u64 = std::env::var("VERIF_RUN_WALL_LIMIT_S").ok().and_then(|v| v.parse().ok()).unwrap_or(if expect_hang { 120 } else { 1800 });
+        let (property, rule, signature) = (rf.property.clone(), rf.rule.clone(), rf.signature.clone());
+        let machine = args.machine;
+        std::thread::spawn(move || {
+            std::thread::sleep(std::time::Duration::from_secs(limit));
+            if expect_hang {
+                if machine {
+                    println!("REPLAY-RESULT {}", json!({"property": property, "rule": rule, "signature": signature, "log_digest": 0}));
+                    std::process::exit(0);
+                }
+                println!("VIOLATION property={} replay=(replayed)", property);
+                println!("  rule={} signature={} detail=the replayed run did not finish within {} s of wall-clock time", rule, signature, limit);
+                std::process::exit(1);
+            }
+            println!("HARNESS-ERROR: replay did not finish within {} s of wall-clock time", limit);
+            std::process::exit(2);
+        });
+    }
     match rf.engine.as_str() {
         "eyesim" => replay_with(&eyesim::EyeSim { property: "C10" }, &rf, args.machine),
         "iosim" => replay_with(&iosim::IoSim, &rf, args.machine),
